@@ -356,6 +356,8 @@ class SimNet:
         self.tap = Tap({"client": ccfg.connection_id_length, "server": scfg.connection_id_length}) if tap else None
         self.ticket_store = None
         self.resumed_with_ticket = False
+        self.frontend = {"vn": 0, "retry": 0, "token_ok": 0, "token_bad": 0}
+        self.retry_handler = None
         server_conn_kwargs = dict(server_conn_kwargs or {})
         if opts.get("resume") is not None:
             # session resumption / 0-RTT: a priming connection produced the ticket the client now offers
@@ -519,7 +521,19 @@ class SimNet:
             self.in_flight += 1
             self._push(self.now + delay, "deliver", (rec, alt, corrupt))
 
-    def _ensure_server(self, first_datagram: bytes):
+    def _frontend_send(self, data, addr):
+        """A datagram from the server's front-end (Version Negotiation, Retry): same network, no connection behind it."""
+        n = sum(self.frontend.values())
+        rec = DatagramRecord("frontend", -1 - n, data, addr, None, self.now)
+        fate = self.fates.deliveries("s2c", 100000 + n, self.now)
+        rec.fate = fate
+        if addr not in (CLIENT_ADDR, CLIENT_ADDR2):
+            return
+        for delay, _alt, _corrupt in fate:
+            self.in_flight += 1
+            self._push(self.now + delay, "deliver", (rec, False, False))
+
+    def _ensure_server(self, first_datagram: bytes, src=CLIENT_ADDR):
         from aioquic.quic.connection import QuicConnection
 
         if self.server is not None:
@@ -529,7 +543,44 @@ class SimNet:
             return False
         dlen = first_datagram[5]
         dcid = first_datagram[6 : 6 + dlen]
-        conn = QuicConnection(configuration=self.scfg, original_destination_connection_id=dcid, **self.server_conn_kwargs)
+        rscid = None
+        if self.opts.get("retry") or self.opts.get("frontend_vn"):
+            # ... and, like aioquic.asyncio.server.QuicServer, answer an unsupported version with Version
+            # Negotiation and (opts["retry"]) a token-less Initial with a Retry
+            from aioquic.buffer import Buffer
+            from aioquic.quic.packet import QuicPacketType, encode_quic_retry, encode_quic_version_negotiation, pull_quic_header
+
+            try:
+                header = pull_quic_header(Buffer(data=first_datagram), host_cid_length=self.scfg.connection_id_length)
+            except ValueError:
+                return False
+            if header.version is not None and header.version not in self.scfg.supported_versions:
+                self.frontend["vn"] += 1
+                self._frontend_send(encode_quic_version_negotiation(
+                    source_cid=header.destination_cid, destination_cid=header.source_cid, supported_versions=self.scfg.supported_versions), src)
+                return False
+            if len(first_datagram) < 1200 or header.packet_type != QuicPacketType.INITIAL:
+                return False
+            if self.opts.get("retry"):
+                if self.retry_handler is None:
+                    from aioquic.quic.retry import QuicRetryTokenHandler
+
+                    self.retry_handler = QuicRetryTokenHandler()
+                if not header.token:
+                    scid = bytes(self.rng.getrandbits(8) for _ in range(8))
+                    self.frontend["retry"] += 1
+                    self._frontend_send(encode_quic_retry(
+                        version=header.version, source_cid=scid, destination_cid=header.source_cid,
+                        original_destination_cid=header.destination_cid,
+                        retry_token=self.retry_handler.create_token(src, header.destination_cid, scid)), src)
+                    return False
+                try:
+                    dcid, rscid = self.retry_handler.validate_token(src, header.token)
+                    self.frontend["token_ok"] += 1
+                except ValueError:
+                    self.frontend["token_bad"] += 1
+                    return False
+        conn = QuicConnection(configuration=self.scfg, original_destination_connection_id=dcid, retry_source_connection_id=rscid, **self.server_conn_kwargs)
         apply_conn_opts(conn, self.opts, "server")
         if self.key_hook:
             self._hook_keys(conn, "server")
@@ -556,7 +607,7 @@ class SimNet:
                 rec, alt, corrupt = payload
                 self.in_flight -= 1
                 if rec.sender == "client":
-                    if not self._ensure_server(rec.data):
+                    if not self._ensure_server(rec.data, client_addr(int(alt))):
                         continue
                     dst, src = self.server, client_addr(int(alt))
                 else:
